@@ -62,7 +62,11 @@ def _private_variables(p: Program) -> Dict[str, Set[str]]:
                 tgt, val = st.target.id, st.value
             if isinstance(val, ast.Call) and isinstance(val.func, ast.Name) and val.func.id in ("TypeVar", "NewType"):
                 continue
-            if tgt and tgt.startswith("_") and not tgt.startswith("__") and any(isinstance(x, (ast.Call, ast.GeneratorExp, ast.ListComp, ast.DictComp, ast.SetComp, ast.BinOp, ast.Lambda)) for x in ast.walk(val)):
+            # a table *computed* from other tables (comprehension, tuple arithmetic, zip): plain constructor calls (re.compile, frozenset, deque)
+            # are ordinary objects the rules treat as such
+            if tgt and tgt.startswith("_") and not tgt.startswith("__") and any(
+                    isinstance(x, (ast.GeneratorExp, ast.ListComp, ast.DictComp, ast.SetComp)) or (isinstance(x, ast.BinOp) and any(isinstance(y, (ast.Tuple, ast.List)) for y in (x.left, x.right)))
+                    or (isinstance(x, ast.Call) and isinstance(x.func, ast.Name) and x.func.id == "zip") for x in ast.walk(val)):
                 s.add(tgt)
         out[name] = s
     p._opaque_privvars = out
